@@ -75,7 +75,12 @@ def parseBody (j : Json) : BodyIn :=
         match kv with
         | .arr #[.str k, .arr vs] => some (k.toList, (strs vs.toList).map String.toList)
         | _ => none),
-    parts := if isNull j "parts" then none else some ((getArr j "parts").map parsePart) }
+    parts := if isNull j "parts" then none else some ((getArr j "parts").map parsePart),
+    yaml := parseJsonView j "yaml",
+    csv := if isNull j "csv" then none else
+      some ((getArr j "csv").map fun rec => match rec with
+        | .arr fs => (strs fs.toList).map String.toList
+        | _ => []) }
 
 mutual
 partial def vJson : V → Json
